@@ -67,7 +67,7 @@ Lemma TI_step cfg wf st o :
 Proof.
   intros I T Hb.
   destruct o as [id parent lend decl mx mindecl mn w|id mx mindecl mn w|id qn np req keys|id|id|id|id|id|t
-                 |id qn np req keys|]; unfold step; cbv zeta.
+                 |id qn np req keys|id|]; unfold step, apply_attempt; cbv zeta.
   - (* quota add *)
     destruct (id <=? 0) eqn:E0; cbn [orb fst]; [exact T|].
     destruct (find_quota id (quotas st)) eqn:Ef; cbn [orb fst]; [exact T|].
@@ -241,7 +241,7 @@ Theorem taint_origin cfg st o q' :
 Proof.
   unfold was_tainted.
   destruct o as [id parent lend decl mx mindecl mn w|id mx mindecl mn w|id qn np req keys|id|id|id|id|id|t
-                 |id qn np req keys|]; unfold step; cbv zeta; cbn [taint_reason].
+                 |id qn np req keys|id|]; unfold step, apply_attempt; cbv zeta; cbn [taint_reason].
   - (* quota add *)
     destruct (id <=? 0); cbn [orb fst]; [intros H Ht; left; exists q'; auto|].
     destruct (find_quota id (quotas st)); cbn [orb fst]; [intros H Ht; left; exists q'; auto|].
